@@ -287,13 +287,14 @@ Proof.
   match goal with H : leqb N.eqb (ms_group s) _ = true |- _ => apply (leqb_eq N.eqb (fun a b => proj1 (N.eqb_eq a b))) in H; rename H into Hgrp end.
   match goal with H : leqb N.eqb (ms_order s) _ = true |- _ => apply (leqb_eq N.eqb (fun a b => proj1 (N.eqb_eq a b))) in H; rename H into Hord end.
   match goal with H : match ms_tree_agg s with _ => _ end = true |- _ => rename H into Hagg end.
-  unfold eval_merge_stmt. rewrite Hok, Hout, Hgrp, Hord.
+  match goal with H : negb (ms_distinct s) = true |- _ => apply negb_true_iff in H; rename H into Hdist end.
+  unfold eval_merge_stmt. rewrite Hok, Hout, Hgrp, Hord, Hdist.
   destruct (ms_tree_agg s); [|discriminate].
   fold (the_proj ty). fold the_out.
-  assert (Epre : flat_map (fun p => map (fun x => eval_proj toks x None (the_proj ty)) (sp_tree p))
-                   (filter (fun p => Z.leb (ms_from s) (sp_ts p) && Z.ltb (sp_ts p) (ms_to s)) db) = map tuple_of pre).
-  { unfold pre, pre_rows. induction (filter _ db) as [|p l IH]; [reflexivity|]. cbn [flat_map]. rewrite map_app, IH. f_equal.
-    rewrite map_map. apply map_ext. intros x. apply eval_proj_ok. }
+  assert (Epre : flat_map fst (map (raw_of toks (the_proj ty))
+                   (filter (fun p => Z.leb (ms_from s) (sp_ts p) && Z.ltb (sp_ts p) (ms_to s)) db)) = map tuple_of pre).
+  { unfold pre, pre_rows. induction (filter _ db) as [|p l IH]; [reflexivity|]. cbn [flat_map map]. rewrite map_app, IH. f_equal.
+    unfold raw_of. cbn [fst]. rewrite map_map. apply map_ext. intros x. apply eval_proj_ok. }
   rewrite Epre.
   pose proof (groups_rep pre Hr) as Hrep.
   set (groups := fold_left (fun gs t => add_to_group gs (map (field t) [1; 2; 3]%N) t) (map tuple_of pre) []) in *.
@@ -335,13 +336,15 @@ Qed.
 
 (* a stored profile: timestamp, names of its sample types, number of sample types, samples *)
 Definition pentry : Type := Z * list Z * nat * list sample.
-Definition sprof_of (h : N -> N -> N) (na : N) (e : pentry) : sprof :=
-  let '(ts, names, nt, ss) := e in {| sp_ts := ts; sp_tree := map (elem_of names) (stored_tree h na nt ss) |}.
+(* [fcol]: the `functions` column of the entry (any: a statement of the accepted shape never looks at it) *)
+Definition sprof_of (h : N -> N -> N) (na : N) (fcol : pentry -> list (N * Z)) (e : pentry) : sprof :=
+  let '(ts, names, nt, ss) := e in
+  {| sp_ts := ts; sp_tree := map (elem_of names) (stored_tree h na nt ss); sp_funcs := fcol e |}.
 Definition stored_of (tok : Z) (e : pentry) : Z * stored :=
   let '(ts, names, nt, ss) := e in (ts, {| sp_nt := nt; sp_samples := ss; sp_sel := first_index tok names |}).
 
-Lemma pre_rows_stored h na tok s (D : list pentry) :
-  pre_rows tok s (map (sprof_of h na) D) =
+Lemma pre_rows_stored h na fcol tok s (D : list pentry) :
+  pre_rows tok s (map (sprof_of h na fcol) D) =
   concat (map (stored_rows h na) (map snd (filter (in_window (ms_from s) (ms_to s)) (map (stored_of tok) D)))).
 Proof.
   unfold pre_rows. induction D as [|e D IH]; [reflexivity|].
@@ -365,25 +368,25 @@ Qed.
 (* The whole read path under the statement the service really sends: for a statement of the accepted shape, the
    evaluator's answer on the stored database exists, and whatever MergeTrie makes of it conserves and totals the
    weights of the profiles in the statement's window. *)
-Theorem statement_read_path h na toks ty s (D : list pentry) :
+Theorem statement_read_path h na fcol toks ty s (D : list pentry) :
   stmt_ok ty s = true ->
   let tok := nth ty toks (-2) in
   let Ps := map snd (filter (in_window (ms_from s) (ms_to s)) (map (stored_of tok) D)) in
   Forall (stored_ok h na) Ps ->
   Z.of_nat (length (concat (map (stored_rows h na) Ps))) <= ms_limit s ->
-  exists rows, eval_merge_stmt toks s (map (sprof_of h na) D) = Some rows /\
+  exists rows, eval_merge_stmt toks s (map (sprof_of h na fcol) D) = Some rows /\
     forall fs, let out := rows_of (m_nodes (merge_trie (ms_limit s) new_tree rows fs)) in
                rconserves out /\ eqm (rchild_tot out 0%N) (sumZ (map stored_weight Ps)).
 Proof.
   intros Hok tok Ps Hst Hlim.
-  pose proof (pre_rows_stored h na tok s D) as Epre. fold Ps in Epre.
-  assert (Hrange : Forall row_in_range (pre_rows tok s (map (sprof_of h na) D))).
+  pose proof (pre_rows_stored h na fcol tok s D) as Epre. fold Ps in Epre.
+  assert (Hrange : Forall row_in_range (pre_rows tok s (map (sprof_of h na fcol) D))).
   { rewrite Epre. apply Forall_forall. intros r Hr. apply in_concat in Hr. destruct Hr as [l [Hl Hr]].
     apply in_map_iff in Hl. destruct Hl as [P [<- _]]. pose proof (stored_rows_in_range h na P) as HP.
     rewrite Forall_forall in HP. apply HP. exact Hr. }
-  assert (Hglen : Z.of_nat (length (group_rows (pre_rows tok s (map (sprof_of h na) D)))) <= ms_limit s).
-  { pose proof (group_rows_length (pre_rows tok s (map (sprof_of h na) D))) as H. rewrite Epre in *. lia. }
-  destruct (stmt_semantics toks ty s (map (sprof_of h na) D) Hok Hrange Hglen) as (rows & Hev & Hperm).
+  assert (Hglen : Z.of_nat (length (group_rows (pre_rows tok s (map (sprof_of h na fcol) D)))) <= ms_limit s).
+  { pose proof (group_rows_length (pre_rows tok s (map (sprof_of h na fcol) D))) as H. rewrite Epre in *. lia. }
+  destruct (stmt_semantics toks ty s (map (sprof_of h na fcol) D) Hok Hrange Hglen) as (rows & Hev & Hperm).
   exists rows. split; [exact Hev|]. intros fs.
   fold tok in Hperm. rewrite Epre in Hperm.
   apply (read_path_conserves h na (ms_limit s) (map (stored_of tok) D) (ms_from s) (ms_to s) rows fs Hst Hperm).
@@ -397,14 +400,14 @@ Definition ex_stmt : merge_stmt :=
   {| ms_fp := "SELECT fingerprint FROM profiles_series_gin"%string; ms_table := "profiles"%string; ms_matchers := "1 == 1"%string;
      ms_types := ["cpu:nanoseconds"%string];
      ms_proj := the_proj 0; ms_from := 0; ms_to := 2000000000; ms_out := the_out; ms_group := [1; 2; 3]%N;
-     ms_order := [1%N]; ms_limit := the_limit; ms_tree_agg := GroupArray; ms_fn_agg := GroupUniqArrayArray |}.
+     ms_order := [1%N]; ms_limit := the_limit; ms_tree_agg := GroupArray; ms_fn_agg := GroupUniqArrayArray; ms_distinct := false |}.
 Definition ex_D : list pentry :=
   [ (0, [0; 1], 2%nat, ex_profile); (1000000000, [1; 0], 2%nat, ex_profile); (5000000000, [0; 1], 2%nat, ex_profile) ].
 Lemma ex_stmt_hypotheses :
   stmt_ok 0 ex_stmt = true /\
   let Ps := map snd (filter (in_window (ms_from ex_stmt) (ms_to ex_stmt)) (map (stored_of 0) ex_D)) in
   Forall (stored_ok city16 0%N) Ps /\ List.length (List.concat (map (stored_rows city16 0%N) Ps)) = 12%nat /\
-  option_map (@List.length row) (eval_merge_stmt [0] ex_stmt (map (sprof_of city16 0%N) ex_D)) = Some 6%nat.
+  option_map (@List.length row) (eval_merge_stmt [0] ex_stmt (map (sprof_of city16 0%N (fun _ => [])) ex_D)) = Some 6%nat.
 Proof.
   split; [vm_compute; reflexivity|]. cbn zeta. split; [|split; vm_compute; reflexivity].
   change (map snd (filter (in_window (ms_from ex_stmt) (ms_to ex_stmt)) (map (stored_of 0) ex_D)))
@@ -412,4 +415,204 @@ Proof.
            {| sp_nt := 2; sp_samples := ex_profile; sp_sel := Some 1%nat |} ].
   repeat constructor; cbn [stored_ok sp_samples sp_sel sp_nt];
     try (apply parent_determined_b_sound; vm_compute; reflexivity); lia.
+Qed.
+
+(* ------------------------------------------------------------------ SELECT DISTINCT in the raw select
+   A raw select that is a SELECT DISTINCT (refused by stmt_ok) collapses the stored profiles of the window whose
+   projected tree array and functions array are equal, BEFORE the ARRAY JOIN / GROUP BY sum: the statement answers
+   what the same statement without DISTINCT answers on the window with the repeated profiles removed. *)
+Definition undistinct (s : merge_stmt) : merge_stmt :=
+  {| ms_fp := ms_fp s; ms_table := ms_table s; ms_matchers := ms_matchers s; ms_types := ms_types s;
+     ms_proj := ms_proj s; ms_from := ms_from s; ms_to := ms_to s; ms_out := ms_out s; ms_group := ms_group s;
+     ms_order := ms_order s; ms_limit := ms_limit s; ms_tree_agg := ms_tree_agg s; ms_fn_agg := ms_fn_agg s;
+     ms_distinct := false |}.
+Definition in_win (s : merge_stmt) (p : sprof) : bool := Z.leb (ms_from s) (sp_ts p) && Z.ltb (sp_ts p) (ms_to s).
+Definition same_raw (toks : list Z) (s : merge_stmt) (p q : sprof) : bool :=
+  raw_eqb (raw_of toks (ms_proj s) p) (raw_of toks (ms_proj s) q).
+(* the profiles of the window a SELECT DISTINCT still reads: the first of every class of equal raw rows *)
+Definition distinct_profiles (toks : list Z) (s : merge_stmt) (db : list sprof) : list sprof :=
+  distinct_by (same_raw toks s) (filter (in_win s) db).
+
+Lemma filter_map_comm {A B} (f : A -> B) (P : B -> bool) l : filter P (map f l) = map f (filter (fun a => P (f a)) l).
+Proof. induction l as [|a l IH]; cbn [map filter]; [reflexivity|]. destruct (P (f a)); cbn [map]; rewrite IH; reflexivity. Qed.
+
+Lemma distinct_by_map {A B} (f : A -> B) (e : B -> B -> bool) l :
+  distinct_by e (map f l) = map f (distinct_by (fun a b => e (f a) (f b)) l).
+Proof.
+  induction l as [|a l IH]; cbn [map distinct_by]; [reflexivity|]. rewrite IH, filter_map_comm. reflexivity.
+Qed.
+
+Lemma distinct_by_forall {A} (e : A -> A -> bool) (P : A -> bool) l :
+  forallb P l = true -> forallb P (distinct_by e l) = true.
+Proof.
+  induction l as [|a l IH]; cbn [distinct_by forallb]; [reflexivity|]. intros H. apply andb_prop in H. destruct H as [Ha Hl].
+  rewrite Ha. cbn [andb]. specialize (IH Hl). revert IH. generalize (distinct_by e l). intros m.
+  induction m as [|b m IHm]; cbn [filter forallb]; [reflexivity|]. intros H. apply andb_prop in H. destruct H as [Hb Hm].
+  destruct (negb (e a b)); cbn [forallb]; [rewrite Hb|]; auto.
+Qed.
+
+Lemma filter_all {A} (P : A -> bool) l : forallb P l = true -> filter P l = l.
+Proof.
+  induction l as [|a l IH]; cbn [forallb filter]; [reflexivity|]. intros H. apply andb_prop in H. destruct H as [Ha Hl].
+  rewrite Ha, IH by exact Hl. reflexivity.
+Qed.
+Lemma forallb_filter {A} (P : A -> bool) l : forallb P (filter P l) = true.
+Proof. induction l as [|a l IH]; cbn [filter]; [reflexivity|]. destruct (P a) eqn:E; cbn [forallb]; [rewrite E|]; exact IH. Qed.
+
+Theorem eval_distinct toks s db : ms_distinct s = true ->
+  eval_merge_stmt toks s db = eval_merge_stmt toks (undistinct s) (distinct_profiles toks s db).
+Proof.
+  intros Hd. unfold eval_merge_stmt. cbn [undistinct ms_from ms_to ms_proj ms_distinct ms_group ms_order ms_limit ms_tree_agg ms_out].
+  rewrite Hd. fold (in_win s).
+  assert (E : filter (in_win s) (distinct_profiles toks s db) = distinct_profiles toks s db).
+  { apply filter_all. unfold distinct_profiles. apply distinct_by_forall. apply forallb_filter. }
+  rewrite E. unfold distinct_profiles, same_raw. rewrite <- distinct_by_map. reflexivity.
+Qed.
+
+Lemma stmt_ok_not_distinct ty s : stmt_ok ty s = true -> ms_distinct s = false.
+Proof.
+  unfold stmt_ok. intros Hok. repeat (apply andb_prop in Hok; destruct Hok as [Hok ?]).
+  match goal with H : negb (ms_distinct s) = true |- _ => apply negb_true_iff in H; exact H end.
+Qed.
+
+(* what a statement with DISTINCT (otherwise of the accepted shape) computes: the GROUP BY sums over the window
+   WITHOUT its repeated profiles *)
+Theorem stmt_semantics_distinct toks ty s db :
+  ms_distinct s = true -> stmt_ok ty (undistinct s) = true ->
+  let pre := pre_rows (nth ty toks (-2)) (undistinct s) (distinct_profiles toks s db) in
+  Forall row_in_range pre -> Z.of_nat (List.length (group_rows pre)) <= ms_limit s ->
+  exists rows, eval_merge_stmt toks s db = Some rows /\ Permutation rows (group_rows pre).
+Proof.
+  intros Hd Hok pre Hr Hlim. rewrite (eval_distinct toks s db Hd).
+  apply (stmt_semantics toks ty (undistinct s) (distinct_profiles toks s db) Hok Hr Hlim).
+Qed.
+
+(* DISTINCT is harmless exactly on windows without repeated raw rows *)
+Lemma distinct_by_id {A} (e : A -> A -> bool) l :
+  ForallOrdPairs (fun x y => e x y = false) l -> distinct_by e l = l.
+Proof.
+  induction 1 as [|a l Ha Hl IH]; cbn [distinct_by]; [reflexivity|]. rewrite IH. f_equal.
+  apply filter_all. apply forallb_forall. intros y Hy. rewrite Forall_forall in Ha. rewrite (Ha y Hy). reflexivity.
+Qed.
+Theorem distinct_harmless_without_repeats toks s db :
+  ForallOrdPairs (fun p q => same_raw toks s p q = false) (filter (in_win s) db) ->
+  eval_merge_stmt toks s db = eval_merge_stmt toks (undistinct s) db.
+Proof.
+  intros H. destruct (ms_distinct s) eqn:Hd.
+  - rewrite (eval_distinct toks s db Hd). unfold distinct_profiles. rewrite (distinct_by_id _ _ H).
+    unfold eval_merge_stmt. cbn [undistinct ms_from ms_to ms_proj ms_distinct ms_group ms_order ms_limit ms_tree_agg ms_out].
+    fold (in_win s). rewrite (filter_all (in_win s) (filter (in_win s) db) (forallb_filter _ _)). reflexivity.
+  - unfold eval_merge_stmt. cbn [undistinct ms_from ms_to ms_proj ms_distinct ms_group ms_order ms_limit ms_tree_agg ms_out].
+    rewrite Hd. reflexivity.
+Qed.
+
+(* the same profile stored twice: under DISTINCT the second copy is not read *)
+Lemma leqb_refl {A} (e : A -> A -> bool) l : (forall x, In x l -> e x x = true) -> leqb e l l = true.
+Proof.
+  induction l as [|x l IH]; intros H; cbn [leqb]; [reflexivity|]. rewrite (H x (or_introl eq_refl)). cbn [andb].
+  apply IH. intros y Hy. apply H. right. exact Hy.
+Qed.
+Lemma key_eq_tuple_refl r : key_eq (tuple_of r) (tuple_of r) = true.
+Proof. unfold key_eq, tuple_of. cbn. rewrite !N.eqb_refl, !Z.eqb_refl. reflexivity. Qed.
+Lemma fn_eqb_refl x : fn_eqb x x = true.
+Proof. unfold fn_eqb. rewrite N.eqb_refl, Z.eqb_refl. reflexivity. Qed.
+
+Lemma same_raw_copy toks ty s p q :
+  ms_proj s = the_proj ty -> sp_tree p = sp_tree q -> sp_funcs p = sp_funcs q -> same_raw toks s p q = true.
+Proof.
+  intros Hp Ht Hf. unfold same_raw, raw_eqb, raw_of. cbn [fst snd]. rewrite Hp, Ht, Hf.
+  rewrite (leqb_refl fn_eqb (sp_funcs q) (fun x _ => fn_eqb_refl x)), andb_true_r.
+  apply leqb_refl. intros t Ht'. apply in_map_iff in Ht'. destruct Ht' as [x [<- _]].
+  rewrite eval_proj_ok. apply key_eq_tuple_refl.
+Qed.
+
+Theorem distinct_drops_repeated_profile h na fcol toks ty s ts1 ts2 names nt ss :
+  ms_distinct s = true -> stmt_ok ty (undistinct s) = true ->
+  ms_from s <= ts1 < ms_to s -> ms_from s <= ts2 < ms_to s ->
+  fcol (ts1, names, nt, ss) = fcol (ts2, names, nt, ss) ->
+  eval_merge_stmt toks s (map (sprof_of h na fcol) [(ts1, names, nt, ss); (ts2, names, nt, ss)]) =
+  eval_merge_stmt toks (undistinct s) (map (sprof_of h na fcol) [(ts1, names, nt, ss)]).
+Proof.
+  intros Hd Hok H1 H2 Hf. rewrite (eval_distinct toks _ _ Hd). f_equal.
+  assert (Hproj : ms_proj s = the_proj ty).
+  { unfold stmt_ok in Hok. repeat (apply andb_prop in Hok; destruct Hok as [Hok ?]).
+    apply (leqb_eq tsel_eqb tsel_eqb_eq) in Hok. exact Hok. }
+  unfold distinct_profiles. cbn [map sprof_of filter]. unfold in_win at 1 2. cbn [sp_ts].
+  replace (Z.leb (ms_from s) ts1 && Z.ltb ts1 (ms_to s)) with true
+    by (symmetry; apply andb_true_intro; split; [apply Z.leb_le|apply Z.ltb_lt]; lia).
+  replace (Z.leb (ms_from s) ts2 && Z.ltb ts2 (ms_to s)) with true
+    by (symmetry; apply andb_true_intro; split; [apply Z.leb_le|apply Z.ltb_lt]; lia).
+  cbn [distinct_by filter].
+  rewrite (same_raw_copy toks ty s _ _ Hproj) by (cbn [sp_tree sp_funcs]; first [reflexivity|exact Hf]).
+  reflexivity.
+Qed.
+
+(* hence the flame graph of a profile stored twice carries the weight of ONE copy: the statement with DISTINCT
+   violates the conclusion of statement_read_path whenever that weight is not 0 modulo 2^64 *)
+Theorem distinct_statement_refuted h na fcol toks ty s ts1 ts2 names nt ss :
+  ms_distinct s = true -> stmt_ok ty (undistinct s) = true ->
+  ms_from s <= ts1 < ms_to s -> ms_from s <= ts2 < ms_to s ->
+  fcol (ts1, names, nt, ss) = fcol (ts2, names, nt, ss) ->
+  let tok := nth ty toks (-2) in
+  let P := {| sp_nt := nt; sp_samples := ss; sp_sel := first_index tok names |} in
+  stored_ok h na P -> Z.of_nat (List.length (stored_rows h na P)) <= ms_limit s ->
+  ~ eqm (stored_weight P) 0 ->
+  exists rows, eval_merge_stmt toks s (map (sprof_of h na fcol) [(ts1, names, nt, ss); (ts2, names, nt, ss)]) = Some rows /\
+    forall fs, let out := rows_of (m_nodes (merge_trie (ms_limit s) new_tree rows fs)) in
+               eqm (rchild_tot out 0%N) (stored_weight P) /\
+               ~ eqm (rchild_tot out 0%N) (stored_weight P + stored_weight P).
+Proof.
+  intros Hd Hok H1 H2 Hf tok P HP Hlen Hw.
+  rewrite (distinct_drops_repeated_profile h na fcol toks ty s ts1 ts2 names nt ss Hd Hok H1 H2 Hf).
+  destruct (statement_read_path h na fcol toks ty (undistinct s) [(ts1, names, nt, ss)] Hok) as (rows & Hev & Hrows).
+  - cbn [map stored_of filter]. fold tok. unfold in_window. cbn [fst undistinct ms_from ms_to].
+    replace (Z.leb (ms_from s) ts1 && Z.ltb ts1 (ms_to s)) with true
+      by (symmetry; apply andb_true_intro; split; [apply Z.leb_le|apply Z.ltb_lt]; lia).
+    cbn [map snd]. constructor; [exact HP|constructor].
+  - cbn [map stored_of filter]. fold tok. unfold in_window. cbn [fst undistinct ms_from ms_to ms_limit].
+    replace (Z.leb (ms_from s) ts1 && Z.ltb ts1 (ms_to s)) with true
+      by (symmetry; apply andb_true_intro; split; [apply Z.leb_le|apply Z.ltb_lt]; lia).
+    cbn [map snd List.concat]. rewrite app_nil_r. exact Hlen.
+  - exists rows. split; [exact Hev|]. intros fs. specialize (Hrows fs). cbn zeta in Hrows. destruct Hrows as [_ Hsum].
+    cbn [map stored_of filter] in Hsum. fold tok in Hsum. unfold in_window in Hsum. cbn [fst undistinct ms_from ms_to ms_limit] in Hsum.
+    replace (Z.leb (ms_from s) ts1 && Z.ltb ts1 (ms_to s)) with true in Hsum
+      by (symmetry; apply andb_true_intro; split; [apply Z.leb_le|apply Z.ltb_lt]; lia).
+    cbn [map snd sumZ fold_right] in Hsum. rewrite Z.add_0_r in Hsum. fold P in Hsum.
+    cbn zeta. split; [exact Hsum|]. intros Hc. apply Hw. unfold eqm in *. rewrite Hsum in Hc.
+    rewrite Z.mod_0_l by (unfold two64; lia).
+    rewrite Z.add_mod in Hc by (unfold two64; lia).
+    pose proof (Z.mod_pos_bound (stored_weight P) two64 ltac:(unfold two64; lia)) as Hb.
+    set (w := stored_weight P mod two64) in *.
+    destruct (Z.eq_dec w 0) as [E|E]; [exact E|exfalso].
+    assert (Hcase : (w + w) mod two64 = w + w \/ (w + w) mod two64 = w + w - two64).
+    { destruct (Z_lt_ge_dec (w + w) two64) as [L|G].
+      - left. apply Z.mod_small. lia.
+      - right. symmetry. apply Z.mod_unique with (q := 1); lia. }
+    destruct Hcase as [Hm|Hm]; rewrite Hm in Hc; lia.
+Qed.
+
+(* the hypotheses are met: ex_profile (two sample types, recursion, shared prefixes) scraped twice, read on its first type *)
+Definition ex_stmt_distinct : merge_stmt :=
+  {| ms_fp := ms_fp ex_stmt; ms_table := ms_table ex_stmt; ms_matchers := ms_matchers ex_stmt; ms_types := ms_types ex_stmt;
+     ms_proj := ms_proj ex_stmt; ms_from := ms_from ex_stmt; ms_to := ms_to ex_stmt; ms_out := ms_out ex_stmt;
+     ms_group := ms_group ex_stmt; ms_order := ms_order ex_stmt; ms_limit := ms_limit ex_stmt;
+     ms_tree_agg := ms_tree_agg ex_stmt; ms_fn_agg := ms_fn_agg ex_stmt; ms_distinct := true |}.
+Lemma distinct_statement_refuted_applies :
+  let P := {| sp_nt := 2; sp_samples := ex_profile; sp_sel := first_index 0 [0; 1] |} in
+  ms_distinct ex_stmt_distinct = true /\ stmt_ok 0 (undistinct ex_stmt_distinct) = true /\
+  stored_ok city16 0%N P /\ Z.of_nat (List.length (stored_rows city16 0%N P)) <= ms_limit ex_stmt_distinct /\
+  stored_weight P mod two64 = 12 /\
+  option_map (fun rows => rchild_tot (rows_of (m_nodes (merge_trie the_limit new_tree rows []))) 0%N)
+    (eval_merge_stmt [0] ex_stmt_distinct
+       (map (sprof_of city16 0%N (fun _ => [])) [(0, [0; 1], 2%nat, ex_profile); (1000000000, [0; 1], 2%nat, ex_profile)]))
+  = Some 12 /\
+  option_map (fun rows => rchild_tot (rows_of (m_nodes (merge_trie the_limit new_tree rows []))) 0%N)
+    (eval_merge_stmt [0] ex_stmt
+       (map (sprof_of city16 0%N (fun _ => [])) [(0, [0; 1], 2%nat, ex_profile); (1000000000, [0; 1], 2%nat, ex_profile)]))
+  = Some 24.
+Proof.
+  cbn zeta. split; [reflexivity|]. split; [vm_compute; reflexivity|]. split.
+  - change (first_index 0 [0; 1]) with (Some 0%nat). cbn [stored_ok sp_samples sp_sel sp_nt].
+    split; [apply parent_determined_b_sound; vm_compute; reflexivity|cbn; lia].
+  - split; [vm_compute; intros H; discriminate H|]. split; [vm_compute; reflexivity|]. split; vm_compute; reflexivity.
 Qed.
